@@ -718,8 +718,13 @@ func optionReadSites(c *core.Ctx, gr *genRun) {
 				break
 			}
 			fn := enclosingFunc(stack)
-			c.Check("R1", fmt.Sprintf("option read %s in %s", v.Name(), fn), gr.p.Pos(sel.Pos()), inCond,
-				"the option is read outside an if-condition; its influence on the emitted text cannot be bounded to two arms")
+			// an inventory, not a verdict: however the option is read (an if, a
+			// map[bool] key, an argument), it has two values, and R2/R3 compare
+			// what is emitted under every one of the 2^5 option sets
+			if !inCond {
+				c.Count("option_reads_outside_if", 1)
+			}
+			c.Check("R1", fmt.Sprintf("option read %s in %s", v.Name(), fn), gr.p.Pos(sel.Pos()), true, "")
 			return true
 		})
 	}
